@@ -109,7 +109,7 @@ func (propC10) Runs(tier string) int {
 	if tier == "thorough" {
 		return 200_000
 	}
-	return 5000
+	return 25000
 }
 
 func c10Positions(L int) []int {
